@@ -104,7 +104,7 @@ PROPS = {
                       "kind, no CR/LF inside values, non-empty line lists) parse_entry(render(m)) == Ok(m) (theorem_parse_render, by induction over the variables in pkg_summary order: "
                       "lines_spec of a newline-terminated block, one step per printed line, present_vars proved duplicate-free and complete), hence render(parse_entry(t)) == t for canonical text t.",
         "level_note": VERUS_TRUST + "Formatter output modelled by an uninterpreted fout(); shims: Formatter::write_str, Display for i64 (text "
-                      "assumed to re-parse to the same value), and shim_sorted_entries: copying the HashMap into a BTreeMap<&K,&V> and iterating it "
+                      "assumed to print the decimal text int_text; that it re-parses to the same value is proved, lemma_int_text_i64), and shim_sorted_entries: copying the HashMap into a BTreeMap<&K,&V> and iterating it "
                       "yields every pair once in the derived (declaration) order of the key enum; writeln!(f, \"{}={}\", k, v) replaced by a helper "
                       "verified in the unit that calls the pieces in format_args! order (D8).",
     },
@@ -145,7 +145,7 @@ PROPS = {
                       "parse_distinfo (C11). The round trip is a THEOREM over those two contracts (lib/distinfo_roundtrip.rs): for every canonical value v (RCS Id line of any bytes without newline starting '$NetBSD: ', or none; names of any non-whitespace bytes, pairwise path-distinct; hashes non-empty ASCII without blanks; every distfile with a checksum or a size <= u64::MAX; patches with checksums only) parse_distinfo(print_distinfo(v)) == v (theorem_parse_print: field splitting of each printed line, the six algorithm names, u64 text, entry blocks by induction), hence print(parse(t)) == t byte for byte for every canonical file t = print(v).",
         "level_note": VERUS_TRUST + "indexmap::IndexMap as an opaque insertion-ordered map keyed by std::path equality (values(), insert, get, get_mut "
                       "with prophecy-style &mut contract); PathBuf/OsString byte views; format!() shims (`{}` of Digest = its Display, proved to be the "
-                      "name table; `{}` of u64 assumed to re-parse); Digest Display via Formatter shim.",
+                      "name table; `{}` of a u64 assumed to print the decimal text int_text; that it re-parses to the same value is proved, lemma_int_text_u64); Digest Display via Formatter shim.",
     },
     "C11": {
         "units": ["distinfo", "digest"],
